@@ -100,8 +100,8 @@ class P(Prop):
             "direct calls of the cell operators in sequence on ONE list (every ordered pair on fixed lists, random sequences), checking the values and that the list "
             "is left unchanged. "
             "NEAR-INTEGRAL FLOAT EXTENTS (Float): per axis a cell size from 14 values (0.1, 0.3, 1/3, 0.7, 60, ...), k = 1..6 cells, an origin (0.1, 0.2, -0.7, 1000.1, random, a multiple of the cell), "
-            "the upper bound lo + k r / (1 + 2 margin) moved by -3..+3 ulps: extent / resolution = k - few ulp | k | k + few ulp; observations ON the four borders / corners, within 2 ulps of a border, "
-            "within 2 ulps of every cell edge, anywhere; margins 0 (half of the cases) / 0.05 / 0.1 / 0.25 / 0.5; as summarize calls, as getCell probes on an explicit box (points 1 ulp outside too), as sessions on one raster. "
+            "the upper bound lo + k r / (1 + 2 margin) moved by -3..+3 ulps (3 in 10: by 1e-13..1e-5 of a cell more): extent / resolution = k - few ulp | k | k + few ulp | k +- 1e-13..1e-5; observations ON the four borders / corners, "
+            "within 2 ulps or 1e-13..1e-5 of a cell of a border and of every cell edge, anywhere; margins 0 (half of the cases) / 0.05 / 0.1 / 0.25 / 0.5; as summarize calls, as getCell probes on an explicit box (points 1 ulp outside too), as sessions on one raster. "
             "MICRO-STEPS (Rat: dyadic steps 2^-14..2^-16, Float: 1.5e-5..9.5e-5): tracks that drift by steps smaller than the ENUCoords equality tolerance (1e-4) across a vertical edge, a horizontal edge, "
             "a cell corner (both axes at once), forwards and backwards, stay on a spot (repeated fix), jump; feature values all different powers of two (a cell sum identifies its members), v#co_sum and uid#co_count always among the aggregates; "
             "as summarize calls and as sessions (reuse / summarize-reuse / change). "
@@ -215,7 +215,18 @@ class P(Prop):
         k = rng.randrange(1, 7)
         lo = rng.choice([0.0, 0.1, 0.2, 0.3, -0.7, 1000.1, rng.uniform(-100, 100), r * rng.randrange(-5, 6), rng.uniform(-1e4, 1e4)])
         hi = ulps(lo + k * r / (1 + 2 * mg), rng.choice([-3, -2, -1, 0, 0, 1, 2, 3]))
+        if rng.random() < 0.3:                                      # ... or by 1e-13 .. 1e-5 of a cell
+            hi = max(hi + rng.choice([-1, 1]) * r * 10 ** -rng.uniform(5, 13), ulps(lo, 1))
         return lo, hi, r, k
+
+    def ni_near(self, rng, v, r):
+        """v itself, a few ulps away, or 1e-13 .. 1e-5 of a cell away"""
+        w = rng.random()
+        if w < 0.3:
+            return v
+        if w < 0.75:
+            return ulps(v, rng.choice([-2, -1, 1, 2]))
+        return v + rng.choice([-1, 1]) * r * 10 ** -rng.uniform(5, 13)
 
     def ni_coord(self, rng, ax, mg):
         """a coordinate of [lo, hi]: a border, within ulps of a border, within ulps of a cell edge, anywhere"""
@@ -226,9 +237,9 @@ class P(Prop):
         elif w < 0.45:
             v = hi
         elif w < 0.55:
-            v = ulps(rng.choice([lo, hi]), rng.choice([-2, -1, 1, 2]))
+            v = self.ni_near(rng, rng.choice([lo, hi]), r)
         elif w < 0.8:
-            v = ulps(lo - mg * (hi - lo) + rng.randrange(0, k + 1) * r, rng.choice([-2, -1, 0, 0, 1, 2]))
+            v = self.ni_near(rng, lo - mg * (hi - lo) + rng.randrange(0, k + 1) * r, r)
         else:
             v = rng.uniform(lo, hi)
         return min(max(v, lo), hi)
